@@ -49,6 +49,10 @@ fn match_wildcard_pattern(patt_raw: &str,base_raw: &str,typ_raw: &str) -> Result
     if base_raw=="." || base_raw==".." {
         return Ok(false);
     }
+    // the fragments are compared byte by byte
+    if !patt_raw.is_ascii() || !base_raw.is_ascii() || !typ_raw.is_ascii() {
+        return Ok(false);
+    }
     let mut dot_iter = patt_raw.split('.');
     let patt_base = extend_fragment(dot_iter.next().unwrap(),8)?.to_uppercase();
     let patt_typ = match dot_iter.next() {
@@ -123,7 +127,7 @@ fn dir_line(finfo: &directory::FileInfo,count: &mut usize) {
 
 fn is_displayed(finfo: &directory::FileInfo,pattern: &str) -> bool {
     let mut ans = true;
-    let pattern_match = match_wildcard_pattern(pattern, &finfo.name, &finfo.typ).expect("bad wildcard pattern");
+    let pattern_match = match_wildcard_pattern(pattern, &finfo.name, &finfo.typ).unwrap_or(false); // a name on the disk that the pattern rules do not cover is matched by nothing
     ans &= pattern_match;
     ans &= !finfo.volume_id;
     ans
